@@ -1,12 +1,13 @@
 """C19 — surface-energy and time-shift utilities match the shifted-wave definition."""
 import numpy as np
 from harness import core, gens
-from harness.core import q, qlist, qmat, zlist, cbool, Case, guarded, ImplError
+from harness.core import q, qlist, qmat, zlist, cbool, Case, guarded, guarded_pure, ImplError
 
 FN = ['calc_surface_energy', 'calc_cum_abs_surface_energy', 'get_time_shift_motions']
 CLIPS = ['none', 'start', 'end', 'both']
 RULE = ('surface functions: cases = (function in {calc_surface_energy, calc_cum_abs_surface_energy, get_time_shift_motions}, record, dt, travel times, '
-        'up/down reductions scalar or ndarray, stt >= 0, nodal x trim x start in {T,F}^3), called on an AccSignal with the travel times given as python scalar, list or ndarray. '
+        'up/down reductions scalar or ndarray (separate objects, or one float64 array object passed for both: 3 in 10 cases, nodal), stt >= 0, nodal x trim x start in {T,F}^3), called on an AccSignal with the travel times given as python scalar, list or ndarray; '
+        'every call is made twice on the same argument objects: ndarray arguments bit-identical afterwards and both results identical. '
         'Exact domain (tolerance 0): integer records (|a| <= 10, 1..60 samples, incl. records ending non-zero), dt = 2^-j, travel times and stt multiples of dt/8 '
         '(zero, fractional, half- and whole-sample delays, delays beyond the record), reductions multiples of 1/4 (incl. 0 and negative). '
         'Tolerance domain (1e-9 of the largest model value): float records incl. the shipped motion, dt in {0.01,0.005,0.02}, fractional travel times kept 0.05 samples away from every int()/interp branch point. '
@@ -57,6 +58,8 @@ def replay_call(rp):
         ur, dr = a['up_red'], a['down_red']
         if isinstance(ur, list):
             ur, dr = np.array(ur), np.array(dr)
+            if str(a.get('reductions_object', '')).startswith('one ndarray'):
+                dr = ur
         return call_surface(FN.index(fn), a['values'], a['dt'], tts, a['nodal'], ur, dr, a['stt'], a['trim'], a['start'])
     from eqsig.fns import time_shift as ts
     if fn == 'put_array_in_2d_array':
@@ -64,8 +67,9 @@ def replay_call(rp):
     return ts.join_values_w_shifts(np.array(a['values']), np.array(a['shifts'], dtype=int), jtype=a['jtype']).tolist()
 
 
-def gen_config(rng, exact, tier):
-    """one configuration of the surface functions (all values python floats)"""
+def gen_config(rng, exact, tier, shared_red=False):
+    """one configuration of the surface functions (all values python floats).
+    shared_red: nodal surface, float64 ndarray reductions, and the SAME array object is passed for up_red and down_red"""
     if exact:
         n = gens.small_len(rng, 1, 60)
         vals, style = gens.int_record(rng, n, amp=rng.choice([3, 10]))
@@ -92,29 +96,37 @@ def gen_config(rng, exact, tier):
         tts = [dt * (rng.randint(0, rng.choice([3, 10, 40])) + fr()) for _ in range(ntt)]
         stt = dt * (rng.randint(0, rng.choice([0, 5, 30])) + fr())
         redv = None
-    arr_red = rng.random() < 0.45
+    arr_red = shared_red or rng.random() < 0.45
+    same_obj = False
     if arr_red:
         ur = np.array([rng.choice(redv) if redv else rng.uniform(0.2, 1.5) for _ in range(ntt)])
         dr = np.array([rng.choice(redv) if redv else rng.uniform(0.2, 1.5) for _ in range(ntt)])
-        if rng.random() < 0.2:
+        if shared_red or rng.random() < 0.2:
             dr = ur.copy()
+            same_obj = shared_red or rng.random() < 0.5
     else:
         ur = rng.choice(redv) if redv else rng.uniform(0.2, 1.5)
         dr = ur if rng.random() < 0.5 else (rng.choice(redv) if redv else rng.uniform(0.2, 1.5))
-    nodal, trim, start = rng.random() < 0.55, rng.random() < 0.5, rng.random() < 0.5
+    nodal, trim, start = shared_red or rng.random() < 0.55, rng.random() < 0.5, rng.random() < 0.5
+    if shared_red and not np.any(ur):
+        ur[0] = dr[0] = 0.75
     if trim and start:   # numpy raises when a row would start beyond the trimmed length
         sds_min = min(int(t / dt) for t in tts)
         while int(stt / dt) - sds_min > n:
             stt = stt / 2
     return dict(vals=[float(x) for x in vals], dt=float(dt), tts=[float(t) for t in tts], ur=ur, dr=dr, stt=float(stt),
-                nodal=nodal, trim=trim, start=start, exact=exact)
+                nodal=nodal, trim=trim, start=start, exact=exact, same_red_obj=same_obj)
 
 
 def args_of(cfg, which, tt_kind):
     return {'values': cfg['vals'], 'dt': cfg['dt'], 'travel_times': cfg['tts'] if tt_kind != 'scalar' else cfg['tts'][0], 'tt_kind': tt_kind,
             'up_red': cfg['ur'].tolist() if hasattr(cfg['ur'], '__len__') else cfg['ur'],
             'down_red': cfg['dr'].tolist() if hasattr(cfg['dr'], '__len__') else cfg['dr'],
-            'stt': cfg['stt'], 'nodal': cfg['nodal'], 'trim': cfg['trim'], 'start': cfg['start']}
+            'stt': cfg['stt'], 'nodal': cfg['nodal'], 'trim': cfg['trim'], 'start': cfg['start'],
+            'reductions_object': 'one ndarray object passed as up_red AND down_red' if (cfg.get('same_red_obj') and hasattr(cfg['ur'], '__len__')) else 'separate objects'}
+
+
+_PURITY_SEEN = set()
 
 
 def run_cfg(rep, cfg, which, rng):
@@ -125,10 +137,20 @@ def run_cfg(rep, cfg, which, rng):
     ur, dr = cfg['ur'], cfg['dr']
     ur = ur.copy() if hasattr(ur, '__len__') else ur
     dr = dr.copy() if hasattr(dr, '__len__') else dr
+    if cfg.get('same_red_obj') and hasattr(ur, '__len__'):
+        dr = ur          # equal reductions given as one and the same array object
     site = 'eqsig.surface.' + FN[which]
-    r = guarded(call_surface, which, cfg['vals'], cfg['dt'], tts_arg, cfg['nodal'], ur, dr, cfg['stt'], cfg['trim'], cfg['start'])
+    # the functions are pure in their arguments: travel times / reductions (ndarrays) bit-identical after the call, and a second
+    # call on the very same argument objects returns the identical result
+    r = guarded_pure(call_surface, which, cfg['vals'], cfg['dt'], tts_arg, cfg['nodal'], ur, dr, cfg['stt'], cfg['trim'], cfg['start'])
     if isinstance(r, ImplError):
-        rep.violation(site, {'function': site, 'args': args_of(cfg, which, tt_kind), 'impl_error': str(r)})
+        if str(r).startswith(('InputMutated', 'NotRepeatable')):     # one violation per function is enough (the first input found)
+            if site in _PURITY_SEEN:
+                rep.extra['suppressed_duplicate_purity_violations'] = rep.extra.get('suppressed_duplicate_purity_violations', 0) + 1
+                return None, tt_kind
+            _PURITY_SEEN.add(site)
+        rep.violation(site, {'function': site, 'args': args_of(cfg, which, tt_kind), 'impl_error': str(r),
+                             'argument_order': '0 which, 1 values, 2 dt, 3 travel_times, 4 nodal, 5 up_red, 6 down_red, 7 stt, 8 trim, 9 start'})
         return None, tt_kind
     return r, tt_kind
 
@@ -149,12 +171,13 @@ def mk_case(cfg, which, out, tt_kind):
 def run(rep, rng, tier):
     from eqsig.fns import time_shift as ts
     rep.prove('Prop_C19')
+    _PURITY_SEEN.clear()
     cases, scales, rows, puts, joins = [], [], [], [], []
     n_exact, n_tol, n_rel, n_put = (300, 45, 75, 160) if tier == "quick" else (4500, 600, 1200, 2500)
 
     # --- model correspondence, exact and tolerance domains
     for k in range(n_exact + n_tol):
-        cfg = gen_config(rng, k < n_exact, tier)
+        cfg = gen_config(rng, k < n_exact, tier, shared_red=(k % 10 >= 7))   # 3 in 10 (all three functions): one array object for both reductions
         which = k % 3
         r, tt_kind = run_cfg(rep, cfg, which, rng)
         if r is not None:
